@@ -191,9 +191,13 @@ class XMLTransformerPipeline(BaseTransformerPipeline):
         file_context: FileContext,
         results: list[Result] | None,
     ) -> ChangeSet | None:
+        file_path = file_context.file_path
         with TemporaryFile("w+") as output_file:
             # this will fail fast for files that are not XML
             try:
+                original_lines = split_on_newlines(
+                    file_path.read_bytes().decode("utf-8")
+                )
                 transformer_instance = self.xml_transformer(
                     out=output_file,
                     file_context=file_context,
@@ -204,7 +208,7 @@ class XMLTransformerPipeline(BaseTransformerPipeline):
                 parser.setProperty(
                     handler.property_lexical_handler, transformer_instance
                 )
-                parser.parse(file_path := file_context.file_path)
+                parser.parse(file_path)
                 changes = transformer_instance.changes
                 output_file.seek(0)
             except Exception:
@@ -219,9 +223,6 @@ class XMLTransformerPipeline(BaseTransformerPipeline):
 
             new_lines = output_file.readlines()
             # TODO there's a failure potential here for very large files
-            original_lines = split_on_newlines(
-                file_context.file_path.read_bytes().decode("utf-8")
-            )
             diff = create_diff(
                 original_lines,
                 split_on_newlines("".join(new_lines)),
